@@ -44,6 +44,9 @@ def _known_findings():
         return json.load(f).get("findings", [])
 
 
+_BASE_TMP = tempfile.gettempdir()      # before any check points TMPDIR into its own scratch directory
+
+
 class Ctx:
     def __init__(self, prop, level, tier, seed, replay=None):
         self.prop = prop
@@ -63,7 +66,7 @@ class Ctx:
         self._seen_keys = set()
         self.notes = []
         self.drifts = []           # conformance failures of specifications beyond the listed property
-        self.scratch = tempfile.mkdtemp(prefix="verif-%s-" % prop, dir=os.environ.get("VERIF_SCRATCH"))
+        self.scratch = tempfile.mkdtemp(prefix="verif-%s-" % prop, dir=os.environ.get("VERIF_SCRATCH") or _BASE_TMP)
         SCRATCHES.append(self.scratch)
         # everything the code under test (and TLC) puts into "the temp dir" lands in the scratch
         # directory, which is removed when the check ends - nothing is left behind in /tmp
